@@ -161,6 +161,14 @@ def run(chk):
         chk.broken.append({"file": "symgen_C07.py", "item": "model regeneration", "coqc_output": out[-1500:]})
     else:
         proofs_ok = chk.compile_chain(["Gen_C07.v"], ["C07_lemmas.v", "C07_analytic.v"], "C07.v", timeout=900)
+    # ---- translator tie: the topology helpers of helicity/decay.py as translated from the current source (C07_code.v)
+    from runners.helpers_flow import run_helpers, TRUSTED as HTRUSTED
+    chk.assumptions += HTRUSTED
+    if not run_helpers(chk, "C07_code.v", {"assert_two_body_decay", "assert_isobar_topology", "get_sibling_state_id",
+                                           "determine_attached_final_state", "is_opposite_helicity_state",
+                                           "get_parent_id", "list_decay_chain_ids", "__get_boost_chain_ids",
+                                           "get_boost_chain_ids"}):
+        proofs_ok = False
     # ---- T2
     tie_ok = _tie(chk)
     # ---- numeric harness / failing-input search (the dalitz chain keeps compiling meanwhile)
